@@ -43,7 +43,14 @@ pub fn build_crate(mods: &[(usize, String)], order: &[usize]) -> Crate {
     let mut lines = vec![];
     for &k in order {
         let (id, text) = &mods[k];
-        let m = format!("mod m{id} {{\nuse educe::Educe;\n{}\n}}\n", text.trim_end());
+        // one module in eight hands the item to the derive through a `macro_rules!` fragment: the
+        // macro then receives interpolated tokens (invisible delimiters, macro hygiene), an input
+        // shape that cannot be written as plain text
+        let m = if id % 8 == 3 {
+            format!("mod m{id} {{\nuse educe::Educe;\nmacro_rules! wrap {{ ($($i:item)*) => {{ $($i)* }} }}\nwrap! {{\n{}\n}}\n}}\n", text.trim_end())
+        } else {
+            format!("mod m{id} {{\nuse educe::Educe;\n{}\n}}\n", text.trim_end())
+        };
         let n = m.matches('\n').count();
         lines.push((line, line + n - 1, *id));
         line += n;
